@@ -685,10 +685,10 @@ def enumerate_worlds(prog, run, max_leaves=4096, budget=50000):
     """Decision-tree enumeration of the possible worlds that matter for `run`.
 
     `run(interp)` evaluates whatever is observed with an Interp whose world is a PARTIAL assignment; whenever the SLD
-    run needs an unassigned choice the tree branches on its values (heads 0..n-1 and 'none').  Yields
-    (weight: Fraction, result of run, world dict) for every leaf with positive weight.  Choices are keyed by
-    (statement index, tuple of the statement's variable values).  Returns a list; raises Budget when the tree has
-    more than max_leaves leaves."""
+    run needs an unassigned choice the tree branches on its values (heads 0..n-1 and 'none').  Returns
+    ([(weight: Fraction, result of run, world dict, interpreter), ...] for every leaf with positive weight, set of
+    choice keys met).  Choices are keyed by (statement index, tuple of the statement's variable values).  Raises
+    Budget when the tree has more than max_leaves leaves."""
     out = []
     keys = set()
     stack = [({}, Fraction(1))]
